@@ -110,7 +110,16 @@ class SchedCtl(object):
             self.dirty = False
 
 
+_MCLASS = []
+
+
 def make_matcher_class():
+    if not _MCLASS:
+        _MCLASS.append(_make_matcher_class())
+    return _MCLASS[0]
+
+
+def _make_matcher_class():
     from whoosh.matching import Matcher
 
     class SchedMatcher(Matcher):
@@ -191,81 +200,244 @@ def make_matcher_class():
         def term_matchers(self):
             return []
 
+        # the rest of the public Matcher interface, answered from the pending postings (the collectors of
+        # the unchanged tree do not call these; a rewrite that does gets consistent answers)
+        def skip_to(self, id):
+            while self.ps and self.ps[0][0] < id:
+                self.next()
+
+        def max_quality(self):
+            return max([p[1] for p in self.ps] + [0.0])
+
+        def block_quality(self):
+            q = self.ps[0][1]
+            for p in self.ps[1:]:
+                if p[2]:
+                    break
+                q = max(q, p[1])
+            return q
+
+        def value(self):
+            return b""
+
+        def supports(self, astype):
+            return False
+
+        def spans(self):
+            return []
+
+        def children(self):
+            return []
+
         def copy(self):
             return self.__class__(self.ps, self.supports, self.ctl, self.terms)
 
     return SchedMatcher
 
 
-class FakeWeighting(object):
-    def __init__(self, table=None):
-        self.use_final = table is not None
-        self.table = table or {}
-
-    def final(self, searcher, docnum, score):
-        return self.table.get(docnum, score)
-
-
-class FakeSub(object):
-    def __init__(self, index):
-        self.index = index
-
-
-class FakeQuery(object):
-    def __init__(self, world):
-        self.world = world
-
-    def matcher(self, sub, context=None):
-        w = self.world
-        w.ctl.new_segment()
-        off, sup, ps = w.segs[sub.index]
-        return w.mclass(ps, sup, w.ctl)
+def _seg_sizes(segs):
+    """Number of documents of each abstract segment: up to the next segment's offset, the last one up
+    to its last posting."""
+    sizes = []
+    for i, (off, _, ps) in enumerate(segs):
+        last = max([d for d, _, _ in ps] + [-1]) + 1
+        if i + 1 < len(segs):
+            sizes.append(max(last, segs[i + 1][0] - off))
+        else:
+            sizes.append(last)
+    return sizes
 
 
-class FakeWorld(object):
-    """A 'searcher' made of abstract segments; implements exactly what whoosh.collectors touches."""
+def _build_fake_classes():
+    """The fakes are subclasses of the real whoosh classes (scoring.WeightingModel, reading.IndexReader,
+    searching.Searcher, query.Query): everything of the public interface that the collectors might call is
+    there (inherited or answered from the abstract segments); only matcher construction is scripted."""
+    from whoosh import fields, scoring
+    from whoosh.query import Query
+    from whoosh.reading import IndexReader
+    from whoosh.searching import Searcher, SearchContext
+    from whoosh.idsets import BitSet
 
-    def __init__(self, segs, sched, final_table=None, doccount=None):
-        self.segs = segs
-        self.ctl = SchedCtl(sched)
-        self.mclass = make_matcher_class()
-        self.weighting = FakeWeighting(final_table)
-        self.q = FakeQuery(self)
-        self._doccount = doccount
+    class FakeWeighting(scoring.WeightingModel):
+        def __init__(self, table=None):
+            self.use_final = table is not None
+            self.table = table or {}
 
-    # --- searcher interface used by collectors / Results
-    def leaf_searchers(self):
-        return [(FakeSub(i), seg[0]) for i, seg in enumerate(self.segs)]
+        def scorer(self, searcher, fieldname, text, qf=1):
+            return scoring.WeightScorer(1.0)
 
-    def docs_for_query(self, q, for_deletion=False):
-        for off, _, ps in self.segs:
-            for d, _, _ in ps:
-                yield off + d
+        def final(self, searcher, docnum, score):
+            return self.table.get(docnum, score)
 
-    def doc_count_all(self):
-        if self._doccount is not None:
-            return self._doccount
-        m = 0
-        for off, _, ps in self.segs:
-            for d, _, _ in ps:
-                m = max(m, off + d + 1)
-        return m
+    class FakeLeafReader(IndexReader):
+        """One abstract segment: `size` documents, none deleted, nothing stored, no terms."""
 
-    doc_count = doc_count_all
+        def __init__(self, index, size, schema):
+            self.index = index
+            self.size = size
+            self.schema = schema
+            self.is_closed = False
 
-    def _filter_to_comb(self, obj):
-        from whoosh.searching import Searcher
-        return Searcher._filter_to_comb(self, obj)
+        def __contains__(self, term):
+            return False
 
-    def _query_to_comb(self, fq):
-        from whoosh.idsets import BitSet
-        return BitSet(self.docs_for_query(fq), size=self.doc_count_all())
+        def is_atomic(self):
+            return True
 
-    def run(self, collector, needs_current=False):
-        from whoosh.searching import SearchContext
-        collector.prepare(self, self.q, SearchContext(needs_current=needs_current))
-        collector.run()
-        return collector.results()
+        def close(self):
+            self.is_closed = True
+
+        def generation(self):
+            return -1
+
+        def indexed_field_names(self):
+            return []
+
+        def all_terms(self):
+            return iter(())
+
+        def terms_from(self, fieldname, prefix):
+            return iter(())
+
+        def has_deletions(self):
+            return False
+
+        def is_deleted(self, docnum):
+            return False
+
+        def stored_fields(self, docnum):
+            return {}
+
+        def all_stored_fields(self):
+            return ({} for _ in range(self.size))
+
+        def doc_count_all(self):
+            return self.size
+
+        def doc_count(self):
+            return self.size
+
+        def frequency(self, fieldname, text):
+            return 0
+
+        def doc_frequency(self, fieldname, text):
+            return 0
+
+        def field_length(self, fieldname):
+            return 0
+
+        def min_field_length(self, fieldname):
+            return 0
+
+        def max_field_length(self, fieldname):
+            return 0
+
+        def doc_field_length(self, docnum, fieldname, default=0):
+            return default
+
+        def has_vector(self, docnum, fieldname):
+            return False
+
+        def has_column(self, fieldname):
+            return False
+
+    class FakeTopReader(FakeLeafReader):
+        """All abstract segments of a world (never atomic, also with one segment: the collectors are
+        driven through the segment loop in every case)."""
+
+        def __init__(self, subs, size, schema):
+            FakeLeafReader.__init__(self, None, size, schema)
+            self.subs = subs            # [(FakeLeafReader, offset)]
+
+        def is_atomic(self):
+            return False
+
+        def leaf_readers(self):
+            return list(self.subs)
+
+    class FakeQuery(Query):
+        def __init__(self, world):
+            self.world = world
+
+        def __eq__(self, other):
+            return self is other
+
+        def __hash__(self):
+            return id(self)
+
+        def is_leaf(self):
+            return True
+
+        def estimate_size(self, ixreader):
+            return ixreader.doc_count()
+
+        def estimate_min_size(self, ixreader):
+            return 0
+
+        def matcher(self, sub, context=None):
+            w = self.world
+            w.ctl.new_segment()
+            off, sup, ps = w.segs[sub.index]
+            return w.mclass(ps, sup, w.ctl)
+
+    class FakeSub(Searcher):
+        """The sub-searcher of one abstract segment (a real Searcher over a FakeLeafReader)."""
+
+        def __init__(self, reader, weighting, parent):
+            Searcher.__init__(self, reader, weighting=weighting, closereader=False, parent=parent)
+            self.index = reader.index
+
+    class FakeWorld(Searcher):
+        """A searcher made of abstract segments: a real whoosh Searcher over fake readers whose query
+        hands out the scheduled matcher."""
+
+        def __init__(self, segs, sched, final_table=None, doccount=None):
+            self.segs = segs
+            self.ctl = SchedCtl(sched)
+            self.mclass = make_matcher_class()
+            self.q = FakeQuery(self)
+            schema = fields.Schema()
+            sizes = _seg_sizes(segs)
+            subs = [(FakeLeafReader(i, sizes[i], schema), seg[0]) for i, seg in enumerate(segs)]
+            total = 0
+            for off, _, ps in segs:
+                for d, _, _ in ps:
+                    total = max(total, off + d + 1)
+            if doccount is not None:
+                total = doccount
+            Searcher.__init__(self, FakeTopReader(subs, total, schema), weighting=FakeWeighting(final_table),
+                              closereader=False)
+
+        def _subsearcher(self, reader):
+            return FakeSub(reader, self.weighting, self)
+
+        def docs_for_query(self, q, for_deletion=False):
+            # a FakeQuery stands for the postings of *its* world (a filter query handed to another search)
+            for off, _, ps in getattr(q, "world", self).segs:
+                for d, _, _ in ps:
+                    yield off + d
+
+        def _query_to_comb(self, fq):
+            return BitSet(self.docs_for_query(fq), size=self.doc_count_all())
+
+        def run(self, collector, needs_current=False):
+            # the real Searcher.search_with_collector (prepare + run), then the collector's results()
+            self.search_with_collector(self.q, collector, context=self.context(needs_current=needs_current))
+            return collector.results()
+
+    return {"FakeWeighting": FakeWeighting, "FakeLeafReader": FakeLeafReader, "FakeTopReader": FakeTopReader,
+            "FakeQuery": FakeQuery, "FakeSub": FakeSub, "FakeWorld": FakeWorld}
+
+
+_FAKES = ("FakeWeighting", "FakeLeafReader", "FakeTopReader", "FakeQuery", "FakeSub", "FakeWorld")
+
+
+def __getattr__(name):
+    # the fake classes subclass whoosh classes: built on first use (whoosh is imported lazily everywhere here)
+    if name in _FAKES:
+        globals().update(_build_fake_classes())
+        return globals()[name]
+    raise AttributeError(name)
 
 
 def all_hits(segs, final_table=None):
@@ -419,6 +591,7 @@ LEAF_KINDS = ["term", "term", "term", "term", "phrase", "prefix", "wildcard", "t
 NODE_KINDS = ["and", "or", "or", "andnot", "andmaybe", "require", "dismax", "andwithnot", "const", "boost"]
 DYADIC = [0.5, 2.0, 4.0, 0.25]
 TIEBREAKS = [0.0, 0.0, 0.25, 0.5, 1.0, 2.0]
+COORD_SCALES = [0.5, 0.9, 0.9, 1.0, 1.5, 1.75, 2.0]
 
 
 def gen_query(rng, depth=3, allow_zero_boost=False):
@@ -448,6 +621,9 @@ def gen_query(rng, depth=3, allow_zero_boost=False):
     if kind == "dismax":
         # DisjunctionMax(..., tiebreak=t): every second one carries a non-zero tie-breaker (dyadic, so exact)
         return [kind, [sub() for _ in range(rng.choice([2, 2, 3, 4]))], rng.choice(TIEBREAKS)]
+    if kind == "or" and rng.random() < 0.3:
+        # Or(..., scale=s): the coordination bonus of qparser.OrGroup.factory(s) (CoordMatcher around the union)
+        return [kind, [sub() for _ in range(rng.choice([2, 2, 3, 4]))], rng.choice(COORD_SCALES)]
     if kind in ("and", "or"):
         return [kind, [sub() for _ in range(rng.choice([2, 2, 3, 4]))]]
     if kind in ("andnot", "andmaybe", "require"):
@@ -482,7 +658,8 @@ def build_query(q):
     if k == "and":
         return query.And([build_query(x) for x in q[1]])
     if k == "or":
-        return query.Or([build_query(x) for x in q[1]])
+        # ["or", subs] or ["or", subs, scale]
+        return query.Or([build_query(x) for x in q[1]], scale=(q[2] if len(q) > 2 else None))
     if k == "dismax":
         # ["dismax", subs] or ["dismax", subs, tiebreak]
         return query.DisjunctionMax([build_query(x) for x in q[1]], tiebreak=(q[2] if len(q) > 2 else 0.0))
@@ -506,6 +683,8 @@ def build_query(q):
 def query_kinds(q, acc=None):
     acc = set() if acc is None else acc
     acc.add(q[0])
+    if q[0] == "or" and len(q) > 2 and q[2]:
+        acc.add("coord")
     for x in q[1:]:
         if isinstance(x, list) and x and isinstance(x[0], str) and x[0] in KINDS:
             query_kinds(x, acc)
@@ -535,6 +714,8 @@ def subqueries(q):
                 out.append([k, q[1][:i] + [y] + q[1][i + 1:]] + q[2:])
         if k == "dismax" and len(q) > 2 and q[2]:
             out.append([k, q[1], 0.0])
+        if k == "or" and len(q) > 2:
+            out.append([k, q[1]])
     elif k in ("andnot", "andmaybe", "require"):
         out.append(q[1])
         out.append(q[2])
